@@ -347,6 +347,21 @@ def evalAssign (facts : List String) (r : Regs) (args : List String) : Option Va
     pure (match m.optDigest with
       | some d => .env (.encrypted m d)
       | Option.none => .err "MissingDigest")
+  | ["miscompress_near", e, k] => do
+    let e ← r.env e; let k ← k.toNat?
+    let bs := e.digest.bytes
+    let bs' := bs.zipIdx.map fun (b, i) => if i == k % 32 then b ^^^ 1 else b
+    let d ← Digest.ofBytes? bs'
+    pure (.env (.compressed (compressedOf ZZ (encode e)) d))
+  | ["misdeclare_near", e, k, key, n] => do
+    let e ← r.env e; let k ← k.toNat?; let key ← bytesOfHex key; let n ← bytesOfHex n
+    let bs := e.digest.bytes
+    let bs' := bs.zipIdx.map fun (b, i) => if i == k % 32 then b ^^^ 1 else b
+    let d ← Digest.ofBytes? bs'
+    let m := encryptWithDigest AE key n (encode e) d
+    pure (match m.optDigest with
+      | some d' => .env (.encrypted m d')
+      | Option.none => .err "MissingDigest")
   | ["miscompress", e, other] => do
     let e ← r.env e; let other ← r.env other
     pure (.env (.compressed (compressedOf ZZ (encode other)) e.digest))
